@@ -86,10 +86,15 @@ def run(ctx):
         raise core.MachineryError("vacuous model: rejected=%d multi=%d kinds=%s" % (n_rej, n_multi, kinds))
     ctx.traces = len(res.cases)
     ctx.extra.update({"histories_by_kind": kinds, "rejected_steps": n_rej, "multi_direction_steps": n_multi})
+    from .. import tracedrv
+    tracedrv.trace_check(ctx, 150 if ctx.tier == "quick" else 1200, 6 if ctx.tier == "quick" else 8)
     ctx.rule = ("every reachable state of MC_C04 (initial shape + history of insert_knot calls) is one case, replayed twice "
                 "(operations.insert_knot and the object method); distinct = distinct (initial shape, history)")
     ctx.assumptions = ["1e-9 relative tolerance on knot vectors and control points", "clamped, normalised knot vectors (as the property states)"]
 
 
 def replay(ctx, v):
+    if "trace" in v["full"]:
+        from .. import tracedrv
+        return tracedrv.replay_trace(ctx, v["full"])
     check_case(ctx, v["full"])
